@@ -167,10 +167,20 @@ InferExportName(ws, n) ==
 ExportFaults(ws, name) ==
   (IF name \in DOMAIN ws.g.exports THEN {"DuplicateExternName"} ELSE {})
   \cup (IF name \notin ValidNames THEN {"InvalidExternName"} ELSE {})
+  \* a type declared at the root is exported under its own name: no other export may take it
+  \cup (IF name \in DOMAIN ws.env /\ ws.g.nodes[ws.env[name]].k = "def" THEN {"ExportConflict"} ELSE {})
 
 \* result: [faults, ws]
 Exec(ws, s) ==
-  CASE s.s = "import" ->
+  CASE s.s = "type" ->
+         \* a type declaration at the root defines the type and exports it under its name
+         LET F == (IF s.id \in DOMAIN ws.g.exports THEN {"DeclarationConflict"} ELSE {})
+                  \cup (IF s.id \in DOMAIN ws.env THEN {"DuplicateName"} ELSE {})
+             n == NewId(ws.g)
+             w1 == [Do(ws, Op("define_type", 0, 0, s.id, s.def)) EXCEPT !.iid = Extend(@, n, NoIid)]
+         IN IF F # {} \/ s.def \in DefinedTypes(ws.g) THEN [faults |-> F \cup {"DuplicateName"}, ws |-> ws]
+            ELSE [faults |-> {}, ws |-> Bind(w1, s.id, n)]
+    [] s.s = "import" ->
          LET F == (IF s.name \in ImportedNames(ws.g) THEN {"DuplicateExternName"} ELSE {})
                   \cup (IF s.name \notin ValidNames THEN {"InvalidExternName"} ELSE {})
                   \cup (IF s.id \in DOMAIN ws.env THEN {"DuplicateName"} ELSE {})
